@@ -16,6 +16,36 @@ CHECKS = {
         technique="TLA+ spec (CTree) + TLC exhaustive universe -> replay on real ctree.Tree -> TLC trace validation (CTreeTrace)"),
 }
 
+CACHE_NOTE = ("Trusts TLC, the TLA+ Json module and the driver's projection of protobuf messages to index paths and value tokens (no oracle logic in Go). "
+              "Assumes a clock that does not run backwards, no re-Add of a known target, no atomic/plain leaf at the same exact path, no NaN/-0, no path-level origins (DESIGN note N1). "
+              "Sequential use only (concurrency of the cache is covered through C04/C10/C15-race).")
+CHECKS.update({
+    "C02": dict(category="model_checking",
+        text="Cache.tla/CacheMC.tla are model-checked exhaustively for every history of <=4 (thorough <=5) update/delete calls over 4 paths, 2 values, 3 timestamps with a future threshold "
+             "(invariants NewestInv, LatestInv, MirrorInv, action property RejectedUnchanged); thousands of seeded random call sequences with dense/out-of-order/equal timestamps are executed on the real "
+             "cache.Cache and every call (result class, full content read back) is validated by TLC against CacheTrace.tla.",
+        design_ref="5/C02", note=CACHE_NOTE,
+        technique="TLA+ spec (Cache, CacheMC) exhaustive TLC + trace validation of real cache.Cache executions (CacheTrace)"),
+    "C03": dict(category="model_checking",
+        text="The change feed is part of Cache.tla: CacheMC checks MirrorInv (replaying the feed reproduces the store) exhaustively for <=4 calls incl. atomic containers, wildcard deletes and Reset, "
+             "with a mutant configuration proving the invariant bites; on the real cache the driver tees the SetClient callback, and TLC validates for every call of thousands of random sequences "
+             "(multi-update/delete, atomic, aliasing prefix objects with spare capacity, event-driven on/off) that the feed entries are exactly the prescribed ones, that the mirror equals the content read back, "
+             "and that the caller's notification is unmodified.",
+        design_ref="5/C03", note=CACHE_NOTE,
+        technique="TLA+ spec (Cache, CacheMC MirrorInv) exhaustive TLC + trace validation of feed/mirror on real cache.Cache (CacheTrace)"),
+    "C14": dict(category="model_checking",
+        text="CacheMC with 2 targets checks Isolation, ResetClears, RemoveForgets and MirrorInv exhaustively for <=4 calls (updates, deletes, lifecycle, Reset, Remove, Add); on the real cache random histories over 2-4 "
+             "targets (names that are prefixes of each other, overlapping paths) are validated by TLC call by call: content and metadata of every target are re-read after every call, so any cross-target effect, "
+             "an unannounced removal or a surviving leaf is rejected.",
+        design_ref="5/C14", note=CACHE_NOTE + " The clause 'ends single-target subscriptions cleanly' is decided with the Subscribe family, not here.",
+        technique="TLA+ spec (Cache, CacheMC Isolation/ResetClears) exhaustive TLC + trace validation on real cache.Cache (CacheTrace)"),
+    "C15": dict(category="model_checking",
+        text="Counters are state of Cache.tla; CacheMC checks CountersInv (leaves = stored non-meta leaves = added - deleted >= 0), LatestInv and ResetClears exhaustively; on the real cache every target's counters "
+             "(Cache.Metadata()) and exported meta leaves are read after every call of random histories mixing updates with Sync/Connect/ConnectError/Reset/UpdateMetadata/UpdateSize and validated by TLC against the specification's counters.",
+        design_ref="5/C15", note=CACHE_NOTE + " Latency statistics and the concurrent-refresh clause are not yet decided by this check (see DESIGN.md section 6).",
+        technique="TLA+ spec (Cache counters, CacheMC CountersInv/LatestInv) exhaustive TLC + trace validation of Cache.Metadata() on real cache.Cache (CacheTrace)"),
+})
+
 NOT_YET = {
 }
 
